@@ -3,6 +3,7 @@ package psim
 import (
 	"fmt"
 	"sort"
+	"strings"
 	"testing"
 
 	"pgregory.net/rapid"
@@ -28,7 +29,7 @@ func runTagged(sc Scenario, nt func(*Result) bool, tags ...string) vrt.Verdict {
 	labels = append(labels, fmt.Sprintf("watchers=%d", sc.NWatch), fmt.Sprintf("opts:skip=%v,delay=%v,suppress=%v", sc.Skip, sc.Delay, sc.Suppress))
 	if res.Viol != nil {
 		for _, tg := range tags {
-			if tg == res.Viol.Tag {
+			if strings.Contains(res.Viol.Tag, tg) {
 				return vrt.KeyedViolationf(res.Viol.Tag, "%s", res.Viol.Msg)
 			}
 		}
